@@ -1,5 +1,488 @@
-//! History arms (engine Q): diagram / fringe / store / dominance operation histories against reference models.
-use crate::agg::{Agg, ViolationRecord};
+//! History arms (engine Q): the "node" is one object (a diagram, a fringe, a cache, a dominance store),
+//! the history is a generated sequence of operations on it, the fault is an operation abandoned half-way
+//! (compilation cut off at layer j) followed by re-use of the same object. Every operation is compared
+//! with a reference model.
+use std::cmp::Ordering;
+use std::sync::Arc;
 
-pub fn run_history_arm(_arm: &str, _seed: u64, _run: u64, _agg: &mut Agg) -> Option<Option<ViolationRecord>> { None }
-pub fn replay_history(_p: &serde_json::Value, _agg: &mut Agg) -> Option<ViolationRecord> { None }
+use ddo::*;
+use serde::{Deserialize, Serialize};
+use serde_json::json;
+
+use crate::agg::{hash_json, Agg, ViolationRecord};
+use crate::monitor::{self, MonProblem, MonRelax};
+use crate::rng::{mix, Rng};
+use crate::solve::{Dd, Violation};
+use crate::table::*;
+use crate::wrap::{new_run_ctx, CheckedFringe, CutPlan, SimCutoff};
+
+// =====================================================================================================
+// dd-history: C06 C07 C08 (+ monitors C12 C13)
+// =====================================================================================================
+#[derive(Debug, Clone, Serialize, Deserialize, PartialEq, Eq)]
+pub struct CompileOp {
+    /// 0 exact, 1 relaxed, 2 restricted
+    pub ctype: u8,
+    pub layer: usize,
+    pub base: usize,
+    pub value: isize,
+    pub path: Vec<(usize, isize)>,
+    pub width: usize,
+    pub lb: isize,
+    pub cutoff_at: Option<usize>,
+}
+
+fn v(props: &[&str], class: &str, msg: String) -> Violation { Violation { props: props.iter().map(|s| s.to_string()).collect(), class: class.into(), msg } }
+fn to_sol(p: &[(usize, isize)]) -> Vec<Decision> { p.iter().map(|(a, b)| Decision { variable: Variable(*a), value: *b }).collect() }
+fn tdepth(s: &TState) -> Option<usize> { s.layer.map(|l| l as usize) }
+
+#[derive(Default)]
+struct DdStats { relaxed: u64, relaxed_exact: u64, relaxed_inexact: u64, restricted: u64, restricted_inexact: u64, exact: u64, aborted: u64, cutset_nodes: u64, completions_checked: u64,
+    frontier_multi_layer: u64, infeasible_root: u64, lb_above: u64, reuse_after_abort: u64, exact_best_path_with_merges: u64 }
+
+/// executes a history on ONE diagram object and judges every completed compilation
+fn exec_dd_history<D: DecisionDiagram<State = TState> + Default>(inst: &Inst, ops: &[CompileOp], st: &mut DdStats, polls_out: &mut Vec<usize>) -> Vec<Violation> {
+    let rc = new_run_ctx();
+    monitor::reset_counters();
+    let all_relevant = inst.t.irrelevant.iter().all(|r| r.iter().all(|x| !x));
+    monitor::C13_ENABLED.store(all_relevant, std::sync::atomic::Ordering::Relaxed);
+    let pb = MonProblem { inner: inst, depth_of: tdepth, all_relevant };
+    let rlx_inner = TRelax(inst);
+    let rlx = MonRelax { pb: &pb, inner: &rlx_inner };
+    let rank = TRank(inst.t.rank_seed);
+    let cache = EmptyCache::new();
+    let dom = EmptyDominanceChecker::default();
+    let mut dd = D::default();
+    let mut out = vec![];
+    let mut prev_aborted = false;
+    for (i, op) in ops.iter().enumerate() {
+        let ct = match op.ctype { 0 => CompilationType::Exact, 1 => CompilationType::Relaxed, _ => CompilationType::Restricted };
+        let root = SubProblem { state: Arc::new(inst.state_of(op.layer, op.base)), value: op.value, path: to_sol(&op.path), ub: isize::MAX, depth: op.layer };
+        let cutoff = SimCutoff::new(match op.cutoff_at { Some(j) => CutPlan::At(j), None => CutPlan::Never });
+        let input = CompilationInput { comp_type: ct, problem: &pb, relaxation: &rlx, ranking: &rank, cutoff: &cutoff, max_width: op.width, residual: &root, best_lb: op.lb, cache: &cache, dominance: &dom };
+        monitor::on_explicit_compile(op.width, op.layer, op.ctype);
+        let res = std::panic::catch_unwind(std::panic::AssertUnwindSafe(|| dd.compile(&input)));
+        monitor::on_compile_end();
+        polls_out.push(cutoff.polls());
+        let ctx = format!("op #{i} {ct:?} root=(layer {}, base {}, value {}) width={} best_lb={} [{}]", op.layer, op.base, op.value, op.width, op.lb, if prev_aborted { "object re-used after an aborted compilation" } else { "object re-used after a completed compilation" });
+        let res = match res {
+            Err(e) => { let m = e.downcast_ref::<String>().cloned().or_else(|| e.downcast_ref::<&str>().map(|s| s.to_string())).unwrap_or_default();
+                        out.push(v(&[match op.ctype { 1 => "C06", _ => "C07" }], "compile-panic", format!("compile panicked: {m}; {ctx}"))); dd = D::default(); prev_aborted = false; continue; }
+            Ok(r) => r,
+        };
+        if prev_aborted { st.reuse_after_abort += 1; }
+        let completion = match res { Err(_) => { st.aborted += 1; prev_aborted = true; continue; } Ok(c) => c };
+        prev_aborted = false;
+        let h = inst.hstar[op.layer][op.base];
+        let opt_r = if h <= NEG { NEG } else { op.value + h };
+        if opt_r == NEG { st.infeasible_root += 1; }
+        if opt_r != NEG && op.lb >= opt_r { st.lb_above += 1; }
+        let beats = opt_r > NEG && opt_r > op.lb;
+        let no_rub = inst.t.rub == Rub::None;
+        let replay_full = |sol: Option<Solution>| -> Result<isize, String> { match sol { None => Err("no solution".into()), Some(s) => inst.replay(&s).map(|x| x.0) } };
+        if completion.best_value != dd.best_value() || completion.is_exact != dd.is_exact() {
+            out.push(v(&[if op.ctype == 1 { "C06" } else { "C07" }], "completion-mismatch", format!("Completion {:?}/{} vs accessors {:?}/{}; {ctx}", completion.best_value, completion.is_exact, dd.best_value(), dd.is_exact())));
+        }
+        match op.ctype {
+            1 => {
+                st.relaxed += 1;
+                if beats && !dd.best_value().map_or(false, |b| b >= opt_r) {
+                    out.push(v(&["C06"], "relaxed-bound-too-low", format!("relaxed best_value = {:?} < sub-problem optimum {opt_r} which beats the incumbent; {ctx}", dd.best_value())));
+                }
+                if dd.is_exact() {
+                    st.relaxed_exact += 1;
+                    if monitor::MERGE_CALLS.load(std::sync::atomic::Ordering::Relaxed) > 0 { st.exact_best_path_with_merges += 1; }
+                    let bev = dd.best_exact_value();
+                    if let Some(b) = bev {
+                        if opt_r == NEG || b > opt_r { out.push(v(&["C06"], "exact-value-above-optimum", format!("diagram declares itself exact with best exact value {b} but the sub-problem optimum is {}; {ctx}", if opt_r == NEG { "-inf (infeasible)".to_string() } else { opt_r.to_string() }))); }
+                        match replay_full(dd.best_exact_solution()) {
+                            Ok(val) if val == b => {}
+                            Ok(val) => out.push(v(&["C06"], "exact-solution-value", format!("best exact solution evaluates to {val} in the model, best exact value is {b}; {ctx}"))),
+                            Err(e) => out.push(v(&["C06"], "exact-solution-infeasible", format!("best exact solution is not a feasible completion: {e}; {ctx}"))),
+                        }
+                    }
+                    if (beats || (no_rub && opt_r > NEG && op.lb == isize::MIN)) && bev != Some(opt_r) {
+                        out.push(v(&["C06"], "exact-but-not-optimum", format!("diagram declares itself exact, best exact value = {:?}, sub-problem optimum = {opt_r}; {ctx}", bev)));
+                    }
+                } else {
+                    st.relaxed_inexact += 1;
+                    let bev = dd.best_exact_value();
+                    let mut cs = vec![];
+                    dd.drain_cutset(|c| cs.push(c));
+                    st.cutset_nodes += cs.len() as u64;
+                    let mut depths: Vec<usize> = cs.iter().map(|c| c.depth).collect(); depths.sort(); depths.dedup();
+                    if depths.len() >= 2 { st.frontier_multi_layer += 1; }
+                    let mut cs_pos: Vec<(usize, usize)> = vec![];
+                    for c in cs.iter() {
+                        let cctx = format!("cut-set node state={:?} depth={} value={} ub={} path={:?}; {ctx}", c.state, c.depth, c.value, c.ub, c.path.iter().map(|d| (d.variable.id(), d.value)).collect::<Vec<_>>());
+                        if c.state.set.count_ones() != 1 { out.push(v(&["C08"], "cutset-not-exact", format!("cut-set node is not an exact state; {cctx}"))); continue; }
+                        let b = c.state.set.trailing_zeros() as usize;
+                        match inst.replay_prefix(&c.path) {
+                            Err(e) => out.push(v(&["C08"], "cutset-path-infeasible", format!("{e}; {cctx}"))),
+                            Ok((val, lay, base)) => {
+                                // depth at which the reference model expands that state: first relevant layer from `lay` on
+                                let mut exp = lay; while exp < inst.t.n && inst.t.irrelevant[exp][base] { exp += 1; }
+                                let depth_ok = c.depth == lay || (c.depth > lay && c.depth <= exp);
+                                if val != c.value || base != b || !depth_ok || c.state.layer.map_or(false, |l| l as usize != c.depth) {
+                                    out.push(v(&["C08"], "cutset-path-mismatch", format!("path replays to value {val}, layer {lay}, base state {base}; {cctx}")));
+                                }
+                            }
+                        }
+                        if c.depth <= op.layer || (c.depth == op.layer && b == op.base) { out.push(v(&["C08"], "cutset-no-progress", format!("handed-out sub-problem is not strictly deeper than the root (depth {}); {cctx}", op.layer))); }
+                        if c.depth <= inst.t.n {
+                            let hc = inst.hstar[c.depth.min(inst.t.n)][b];
+                            if hc > NEG && c.value + hc > op.lb && c.ub < c.value + hc { out.push(v(&["C08"], "cutset-ub-too-low", format!("ub {} < best completion through it {} which beats the incumbent; {cctx}", c.ub, c.value + hc))); }
+                        }
+                        cs_pos.push((c.depth, b));
+                    }
+                    // coverage (iv): every completion of the root that beats incumbent and best exact value goes through a handed-out node
+                    if inst.t.n <= 6 && opt_r > NEG {
+                        let thr = op.lb.max(bev.unwrap_or(isize::MIN));
+                        for (traj, togo) in inst.enumerate_completions(op.layer, op.base) {
+                            let val = op.value + togo;
+                            if val > thr {
+                                st.completions_checked += 1;
+                                if !traj.iter().any(|p| cs_pos.contains(p)) {
+                                    out.push(v(&["C08"], "cutset-coverage", format!("completion with value {val} (> incumbent {} and best exact value {:?}) visiting {:?} goes through none of the handed-out sub-problems {:?}; {ctx}", op.lb, bev, traj, cs_pos)));
+                                    break;
+                                }
+                            }
+                        }
+                    }
+                }
+            }
+            2 => {
+                st.restricted += 1;
+                if !completion.is_exact { st.restricted_inexact += 1; }
+                if let Some(b) = dd.best_value() {
+                    if opt_r == NEG || b > opt_r { out.push(v(&["C07"], "restricted-above-optimum", format!("restricted best_value {b} > sub-problem optimum {}; {ctx}", if opt_r == NEG { "-inf".to_string() } else { opt_r.to_string() }))); }
+                    match replay_full(dd.best_solution()) {
+                        Ok(val) if val == b => {}
+                        Ok(val) => out.push(v(&["C07"], "restricted-solution-value", format!("best solution evaluates to {val}, reported {b}; {ctx}"))),
+                        Err(e) => out.push(v(&["C07"], "restricted-solution-infeasible", format!("{e}; {ctx}"))),
+                    }
+                }
+                if completion.is_exact && beats && dd.best_value() != Some(opt_r) { out.push(v(&["C07"], "restricted-exact-but-not-optimum", format!("restricted diagram declares itself exact with {:?}, optimum {opt_r}; {ctx}", dd.best_value()))); }
+            }
+            _ => {
+                st.exact += 1;
+                if beats && dd.best_value() != Some(opt_r) { out.push(v(&["C07"], "exact-mode-not-optimum", format!("exact-mode compilation yields {:?}, sub-problem optimum {opt_r}; {ctx}", dd.best_value()))); }
+                if let Some(b) = dd.best_value() { if opt_r == NEG || b > opt_r { out.push(v(&["C07"], "exact-mode-above-optimum", format!("exact-mode value {b} above optimum; {ctx}"))); } }
+            }
+        }
+    }
+    for (p, m) in rc.violations.lock().unwrap().iter() { out.push(v(&[p.as_str()], if p == "C12" { "callback-protocol" } else { "width-exceeded" }, m.clone())); }
+    out
+}
+
+fn dispatch_dd(dd: Dd, inst: &Inst, ops: &[CompileOp], st: &mut DdStats, polls: &mut Vec<usize>) -> Vec<Violation> {
+    match dd {
+        Dd::Lel => exec_dd_history::<DefaultMDDLEL<TState>>(inst, ops, st, polls),
+        Dd::Fc => exec_dd_history::<DefaultMDDFC<TState>>(inst, ops, st, polls),
+        Dd::Pooled => exec_dd_history::<Pooled<TState>>(inst, ops, st, polls),
+    }
+}
+
+fn gen_dd_history(rng: &mut Rng, inst: &Inst) -> Vec<CompileOp> {
+    let subs = inst.enumerate_prefixes(300);
+    let nops = 3 + rng.below(5);
+    let mut ops = vec![];
+    for _ in 0..nops {
+        let (l, a, val, path) = subs[rng.below(subs.len())].clone();
+        if l >= inst.t.n { continue; }
+        let h = inst.hstar[l][a];
+        let opt_r = if h <= NEG { None } else { Some(val + h) };
+        let lb = match (opt_r, rng.below(7)) { (None, 0..=4) => isize::MIN, (None, _) => rng.range(-5, 5), (Some(_), 0 | 1) => isize::MIN, (Some(o), 2) => o - 1 - rng.below(3) as isize, (Some(o), 3) => o - 1, (Some(o), 4) => o, (Some(o), _) => o + 1 + rng.below(3) as isize };
+        let ctype = match rng.below(6) { 0 => 0, 1 | 2 => 2, _ => 1 };
+        let width = *rng.pick(&[1, 1, 2, 2, 2, 3, 3, 4, 5]);
+        ops.push(CompileOp { ctype, layer: l, base: a, value: val, path: path.iter().map(|d| (d.variable.id(), d.value)).collect(), width, lb, cutoff_at: None });
+    }
+    if ops.is_empty() { let (l, a, val, _) = subs[0].clone(); ops.push(CompileOp { ctype: 1, layer: l, base: a, value: val, path: vec![], width: 1, lb: isize::MIN, cutoff_at: None }); }
+    ops
+}
+
+fn record_dd(agg: &mut Agg, st: &DdStats) {
+    agg.add("compilations_relaxed", st.relaxed); agg.add("probe:relaxed_exact", st.relaxed_exact); agg.add("probe:relaxed_inexact", st.relaxed_inexact);
+    agg.add("compilations_restricted", st.restricted); agg.add("probe:restricted_inexact(layer truncated)", st.restricted_inexact); agg.add("compilations_exact_mode", st.exact);
+    agg.add("fault:compile_aborted_by_cutoff", st.aborted); agg.add("fault:reuse_after_abort", st.reuse_after_abort); agg.add("cutset_nodes_checked", st.cutset_nodes);
+    agg.add("completions_checked_for_coverage", st.completions_checked); agg.add("probe:frontier_cutset_spanning_>=2_layers", st.frontier_multi_layer);
+    agg.add("probe:infeasible_subproblem", st.infeasible_root); agg.add("probe:incumbent_at_or_above_optimum", st.lb_above); agg.add("probe:exact_best_path_claim_with_merges_present", st.exact_best_path_with_merges);
+    for (k, c) in [("mon_merge_calls", &monitor::MERGE_CALLS), ("mon_relax_calls", &monitor::RELAX_CALLS)] { let _ = (k, c); }
+}
+
+fn run_dd_history(arm: &str, seed: u64, run: u64, agg: &mut Agg, explicit: Option<(&Table, Dd, &[CompileOp])>) -> Option<ViolationRecord> {
+    let mut rng = Rng::new(seed);
+    let (table, dd, base_ops) = match explicit {
+        Some((t, d, o)) => (t.clone(), d, o.to_vec()),
+        None => {
+            let long_arcs = arm == "dd-history-longarc";
+            let mut trng = rng.fork(1);
+            let mut t = Table::generate(&mut trng, GenOpts { depth_free: arm == "dd-history-depthfree", long_arcs, max_n: 6, max_s: 6, reconverge: false, dom_friendly: false });
+            if arm == "dd-history" && rng.chance(1, 3) { t.rub = Rub::None; }
+            let dd = *rng.pick(&[Dd::Lel, Dd::Fc, Dd::Pooled]);
+            let inst = Inst::new(t.clone());
+            let ops = gen_dd_history(&mut rng, &inst);
+            (t, dd, ops)
+        }
+    };
+    let inst = Inst::new(table.clone());
+    agg.runs += 1;
+    let mut st = DdStats::default();
+    let mut polls = vec![];
+    let mut viol = dispatch_dd(dd, &inst, &base_ops, &mut st, &mut polls);
+    let mut failing_ops = base_ops.clone();
+    agg.add("compilations", base_ops.len() as u64);
+    // fault enumeration: one operation of the history is abandoned at EVERY layer j, the rest of the history follows on the same object
+    if explicit.is_none() && viol.is_empty() && base_ops.len() >= 2 {
+        let p = rng.below(base_ops.len() - 1);
+        let k = polls[p];
+        for j in 1..=k {
+            let mut ops = base_ops.clone();
+            ops[p].cutoff_at = Some(j);
+            let mut pl = vec![];
+            let vv = dispatch_dd(dd, &inst, &ops, &mut st, &mut pl);
+            agg.add("compilations", ops.len() as u64);
+            agg.add("sweep_executions", 1);
+            agg.distinct_case(mix(hash_json(&(&table, dd, &ops)), j as u64));
+            if !vv.is_empty() { viol = vv; failing_ops = ops; break; }
+        }
+    }
+    record_dd(agg, &st);
+    if st.relaxed_inexact > 0 || st.restricted_inexact > 0 { agg.distinct_case(hash_json(&(&table, dd, &base_ops))); }
+    agg.sample(|| json!({"arm": arm, "seed": seed, "dd": dd, "instance": {"n": table.n, "s": table.s, "d": table.d, "next": table.next, "cost": table.cost, "v0": table.v0, "rub": table.rub, "irrelevant": table.irrelevant}, "ops": base_ops}));
+    viol.dedup_by(|a, b| a.class == b.class);
+    if viol.is_empty() { None } else { Some(ViolationRecord { arm: arm.into(), seed, run, violations: viol, replay: json!({"kind": "dd-history", "arm": arm, "table": table, "dd": dd, "ops": failing_ops}) }) }
+}
+
+// =====================================================================================================
+// fringe-history: C11
+// =====================================================================================================
+#[derive(Debug, Clone, Serialize, Deserialize, PartialEq, Eq)]
+pub enum FringeOp { Push { state: u8, depth: usize, value: isize, ub: isize }, Pop, Clear }
+struct ByteRank;
+impl StateRanking for ByteRank { type State = u8; fn compare(&self, a: &u8, b: &u8) -> Ordering { a.cmp(b) } }
+
+fn exec_fringe_history<F: Fringe<State = u8>>(f: F, dedup: bool, ops: &[FringeOp], agg: &mut Agg) -> Vec<Violation> {
+    let mut cf = CheckedFringe::new(f, dedup);
+    for (i, op) in ops.iter().enumerate() {
+        match op {
+            FringeOp::Push { state, depth, value, ub } => cf.push(SubProblem { state: Arc::new(*state), value: *value, path: vec![Decision { variable: Variable(i), value: *value }], ub: *ub, depth: *depth }),
+            FringeOp::Pop => { let _ = cf.pop(); }
+            FringeOp::Clear => cf.clear(),
+        }
+        if !cf.errors.is_empty() { break; }
+    }
+    // nothing lost, nothing invented: drain and compare
+    let mut guard = 0;
+    while cf.errors.is_empty() && (cf.len() > 0 || !cf.reference.is_empty()) && guard < 1000 { let _ = cf.pop(); guard += 1; }
+    agg.add("fringe_pushes", cf.stats.pushes as u64); agg.add("fringe_pops", cf.stats.pops as u64); agg.add("fringe_clears", cf.stats.clears as u64);
+    agg.add("probe:coalesced", cf.stats.coalesced as u64); agg.add("probe:coalesced_with_different_ub", cf.stats.coalesced_diff_ub as u64); agg.max("fringe_len", cf.stats.max_len as u64);
+    cf.errors.iter().map(|e| v(&["C11"], "fringe-mismatch", format!("{} fringe: {e}", if dedup { "NoDupFringe" } else { "SimpleFringe" }))).collect()
+}
+
+fn run_fringe_history(arm: &str, seed: u64, run: u64, agg: &mut Agg, explicit: Option<(bool, &[FringeOp])>) -> Option<ViolationRecord> {
+    let mut rng = Rng::new(seed);
+    let (dedup, ops) = match explicit { Some((d, o)) => (d, o.to_vec()), None => {
+        let dedup = rng.chance(2, 3);
+        let len = 4 + rng.below(40);
+        let nstates = 1 + rng.below(4); let ndepths = 1 + rng.below(3); let vmax = 1 + rng.below(4) as isize; let umax = 1 + rng.below(5) as isize;
+        let ppush = 4 + rng.below(4);
+        let ops = (0..len).map(|_| { let x = rng.below(10); if x < ppush { FringeOp::Push { state: rng.below(nstates) as u8, depth: rng.below(ndepths), value: rng.range(0, vmax), ub: rng.range(0, umax) } } else if x < 9 || !rng.chance(1, 3) { FringeOp::Pop } else { FringeOp::Clear } }).collect();
+        (dedup, ops) } };
+    agg.runs += 1;
+    let rank = ByteRank;
+    let viol = if dedup { exec_fringe_history(NoDupFringe::new(MaxUB::new(&rank)), true, &ops, agg) } else { exec_fringe_history(SimpleFringe::new(MaxUB::new(&rank)), false, &ops, agg) };
+    agg.distinct_case(hash_json(&(dedup, &ops)));
+    agg.sample(|| json!({"arm": arm, "seed": seed, "dedup": dedup, "ops": ops}));
+    if viol.is_empty() { None } else { Some(ViolationRecord { arm: arm.into(), seed, run, violations: viol, replay: json!({"kind": "fringe-history", "dedup": dedup, "ops": ops}) }) }
+}
+
+// =====================================================================================================
+// store-history: C18 (sequential specification of the cache)
+// =====================================================================================================
+#[derive(Debug, Clone, Serialize, Deserialize, PartialEq, Eq)]
+pub enum CacheOp { Update { state: u8, depth: usize, value: isize, explored: bool }, Get { state: u8, depth: usize }, ClearLayer { depth: usize }, Clear, MustExplore { state: u8, depth: usize, value: isize } }
+struct DummyPb(usize);
+impl Problem for DummyPb {
+    type State = u8;
+    fn nb_variables(&self) -> usize { self.0 }
+    fn initial_state(&self) -> u8 { 0 }
+    fn initial_value(&self) -> isize { 0 }
+    fn transition(&self, s: &u8, _: Decision) -> u8 { *s }
+    fn transition_cost(&self, _: &u8, _: &u8, _: Decision) -> isize { 0 }
+    fn next_variable(&self, _: usize, _: &mut dyn Iterator<Item = &u8>) -> Option<Variable> { None }
+    fn for_each_in_domain(&self, _: Variable, _: &u8, _: &mut dyn DecisionCallback) {}
+}
+const CACHE_LAYERS: usize = 3;
+fn run_store_history(arm: &str, seed: u64, run: u64, agg: &mut Agg, explicit: Option<&[CacheOp]>) -> Option<ViolationRecord> {
+    let mut rng = Rng::new(seed);
+    let ops: Vec<CacheOp> = match explicit { Some(o) => o.to_vec(), None => {
+        let len = 3 + rng.below(30); let ns = 1 + rng.below(3);
+        (0..len).map(|_| { let st = rng.below(ns) as u8; let d = rng.below(CACHE_LAYERS + 1); match rng.below(12) {
+            0..=4 => CacheOp::Update { state: st, depth: d, value: rng.range(-2, 3), explored: rng.chance(1, 2) }, 5..=8 => CacheOp::Get { state: st, depth: d },
+            9 => CacheOp::ClearLayer { depth: d }, 10 => CacheOp::MustExplore { state: st, depth: d, value: rng.range(-2, 3) }, _ => if rng.chance(1, 3) { CacheOp::Clear } else { CacheOp::Get { state: st, depth: d } } } }).collect() } };
+    agg.runs += 1;
+    let mut cache = SimpleCache::<u8>::default();
+    cache.initialize(&DummyPb(CACHE_LAYERS));
+    let mut reference: Vec<std::collections::BTreeMap<u8, (isize, bool)>> = vec![Default::default(); CACHE_LAYERS + 1];
+    let mut viol = vec![];
+    for (i, op) in ops.iter().enumerate() {
+        match op {
+            CacheOp::Update { state, depth, value, explored } => { cache.update_threshold(Arc::new(*state), *depth, *value, *explored); let e = reference[*depth].entry(*state).or_insert((*value, *explored)); if (*value, *explored) > *e { *e = (*value, *explored); } agg.add("cache_updates", 1); }
+            CacheOp::Get { state, depth } => { let got = cache.get_threshold(state, *depth).map(|t| (t.value, t.explored)); let want = reference[*depth].get(state).copied(); agg.add("cache_gets", 1); agg.hit("probe:get_hit", want.is_some());
+                if got != want { viol.push(v(&["C18"], "cache-get-mismatch", format!("op #{i}: get_threshold(state {state}, depth {depth}) = {:?}, the maximum (value, explored) recorded since the layer was last cleared is {:?}", got, want))); break; } }
+            CacheOp::ClearLayer { depth } => { cache.clear_layer(*depth); reference[*depth].clear(); agg.add("cache_clear_layers", 1); }
+            CacheOp::Clear => { cache.clear(); for r in reference.iter_mut() { r.clear(); } agg.add("cache_clears", 1); }
+            CacheOp::MustExplore { state, depth, value } => { let sub = SubProblem { state: Arc::new(*state), value: *value, path: vec![], ub: 0, depth: *depth }; let got = cache.must_explore(&sub);
+                let want = match reference[*depth].get(state) { None => true, Some((tv, te)) => *value > *tv || (*value == *tv && !*te) };
+                if got != want { viol.push(v(&["C18"], "cache-must-explore-mismatch", format!("op #{i}: must_explore(state {state}, depth {depth}, value {value}) = {got}, expected {want}"))); break; } }
+        }
+    }
+    if viol.is_empty() { for d in 0..=CACHE_LAYERS { for s in 0..3u8 { let got = cache.get_threshold(&s, d).map(|t| (t.value, t.explored)); let want = reference[d].get(&s).copied(); if got != want { viol.push(v(&["C18"], "cache-final-state-mismatch", format!("final content at (state {s}, depth {d}) = {:?}, expected {:?}", got, want))); } } } }
+    agg.distinct_case(hash_json(&ops));
+    agg.sample(|| json!({"arm": arm, "seed": seed, "ops": ops}));
+    if viol.is_empty() { None } else { Some(ViolationRecord { arm: arm.into(), seed, run, violations: viol, replay: json!({"kind": "store-history", "ops": ops}) }) }
+}
+
+// =====================================================================================================
+// dom-history: C10 (checker semantics), also the sequential specification of the dominance store for C18
+// =====================================================================================================
+#[derive(Debug, Clone, PartialEq, Eq, Hash, Serialize, Deserialize)]
+pub struct DState { pub key: u8, pub coords: Vec<isize> }
+#[derive(Debug, Clone, Serialize, Deserialize, PartialEq, Eq)]
+pub enum DomOp { Check { state: DState, depth: usize, value: isize }, ClearLayer { depth: usize } }
+pub struct DRule { pub use_value: bool, pub keyed: bool }
+impl Dominance for DRule {
+    type State = DState; type Key = u8;
+    fn get_key(&self, s: Arc<DState>) -> Option<u8> { if self.keyed { if s.key == 255 { None } else { Some(s.key) } } else { Some(0) } }
+    fn nb_dimensions(&self, s: &DState) -> usize { s.coords.len() }
+    fn get_coordinate(&self, s: &DState, i: usize) -> isize { s.coords[i] }
+    fn use_value(&self) -> bool { self.use_value }
+}
+/// reference: a >= b everywhere (and in value when used) and strictly better somewhere
+fn ref_dominates(a: &(DState, isize), b: &(DState, isize), use_value: bool) -> bool {
+    let ge = a.0.coords.iter().zip(b.0.coords.iter()).all(|(x, y)| x >= y) && (!use_value || a.1 >= b.1);
+    let gt = a.0.coords.iter().zip(b.0.coords.iter()).any(|(x, y)| x > y) || (use_value && a.1 > b.1);
+    ge && gt
+}
+const DOM_LAYERS: usize = 2;
+fn run_dom_history(arm: &str, seed: u64, run: u64, agg: &mut Agg, explicit: Option<(bool, usize, &[DomOp])>) -> Option<ViolationRecord> {
+    let mut rng = Rng::new(seed);
+    let (use_value, ops): (bool, Vec<DomOp>) = match explicit { Some((u, _, o)) => (u, o.to_vec()), None => {
+        let use_value = rng.chance(1, 2); let len = 2 + rng.below(16); let nk = 1 + rng.below(2); let dims = 1 + rng.below(3); let cmax = 1 + rng.below(2) as isize; let vmax = rng.below(4) as isize;
+        (use_value, (0..len).map(|_| if rng.chance(1, 14) { DomOp::ClearLayer { depth: rng.below(DOM_LAYERS) } } else {
+            DomOp::Check { state: DState { key: if rng.chance(1, 25) { 255 } else { rng.below(nk) as u8 }, coords: (0..dims).map(|_| rng.range(0, cmax)).collect() }, depth: rng.below(DOM_LAYERS), value: rng.range(0, vmax) } }).collect()) } };
+    agg.runs += 1;
+    let mk = || SimpleDominanceChecker::new(DRule { use_value, keyed: true }, DOM_LAYERS - 1);
+    let chk = mk();
+    // reference Pareto fronts per (depth, key)
+    let mut front: Vec<std::collections::BTreeMap<u8, Vec<(DState, isize)>>> = vec![Default::default(); DOM_LAYERS];
+    let mut viol = vec![];
+    'outer: for (i, op) in ops.iter().enumerate() {
+        match op {
+            DomOp::ClearLayer { depth } => { chk.clear_layer(*depth); front[*depth].clear(); }
+            DomOp::Check { state, depth, value } => {
+                let r = chk.is_dominated_or_insert(Arc::new(state.clone()), *depth, *value);
+                agg.add("dominance_checks", 1);
+                if state.key == 255 {
+                    if r.dominated { viol.push(v(&["C10", "C18"], "dominance-verdict", format!("op #{i}: state without key reported dominated"))); break; }
+                    continue;
+                }
+                let me = (state.clone(), *value);
+                let f = front[*depth].entry(state.key).or_default();
+                let want = f.iter().any(|e| ref_dominates(e, &me, use_value));
+                agg.hit("probe:dominated_verdict", want);
+                agg.hit("probe:equal_state_re_presented", f.iter().any(|e| *e == me));
+                if r.dominated != want {
+                    viol.push(v(&["C10", "C18"], "dominance-verdict", format!("op #{i}: is_dominated_or_insert({:?}, depth {depth}, value {value}) says dominated = {}, but the Pareto front of what was recorded is {:?} (use_value = {use_value})", state, r.dominated, f)));
+                    break;
+                }
+                if !want {
+                    let before = f.len();
+                    f.retain(|e| !(ref_dominates(&me, e, use_value) || *e == me));
+                    agg.hit("probe:recorded_entry_dropped_by_later_dominating_state", f.len() < before);
+                    f.push(me);
+                    if r.threshold.is_some() { viol.push(v(&["C10"], "dominance-threshold", format!("op #{i}: not dominated but a threshold {:?} is returned", r.threshold))); break; }
+                } else {
+                    // threshold soundness, checked against the implementation itself
+                    match r.threshold {
+                        None => { viol.push(v(&["C10"], "dominance-threshold", format!("op #{i}: dominated verdict without threshold"))); break; }
+                        Some(t) => {
+                            if t < *value { viol.push(v(&["C10"], "dominance-threshold", format!("op #{i}: threshold {t} is below the presented value {value}"))); break; }
+                            let hi = t.min(*value + 4);
+                            for vv in *value..=hi {
+                                let fresh = mk();
+                                for prev in ops[..i].iter() { match prev { DomOp::ClearLayer { depth } => fresh.clear_layer(*depth), DomOp::Check { state, depth, value } => { let _ = fresh.is_dominated_or_insert(Arc::new(state.clone()), *depth, *value); } } }
+                                let rr = fresh.is_dominated_or_insert(Arc::new(state.clone()), *depth, vv);
+                                agg.add("threshold_soundness_probes", 1);
+                                if !rr.dominated { viol.push(v(&["C10"], "dominance-threshold-unsound", format!("op #{i}: {:?} with value {value} was reported dominated with threshold {t}, but the same state with value {vv} <= {t} is not dominated", state))); break 'outer; }
+                            }
+                        }
+                    }
+                }
+            }
+        }
+    }
+    // comparator: a dominating state sorts first
+    if viol.is_empty() {
+        let states: Vec<(DState, isize)> = ops.iter().filter_map(|o| if let DomOp::Check { state, value, .. } = o { Some((state.clone(), *value)) } else { None }).collect();
+        for a in states.iter() { for b in states.iter() { if a.0.coords.len() == b.0.coords.len() && ref_dominates(a, b, use_value) {
+            agg.add("comparator_pairs_checked", 1);
+            if chk.cmp(&a.0, a.1, &b.0, b.1) != Ordering::Greater { viol.push(v(&["C10"], "dominance-comparator", format!("{:?} dominates {:?} but cmp does not rank it first", a, b))); }
+        } } }
+        // closing probe queries: the store answers as the Pareto front of everything recorded
+        for d in 0..DOM_LAYERS { for (k, f) in front[d].clone().iter() { for e in f.iter() {
+            let probe = (DState { key: *k, coords: e.0.coords.iter().map(|c| c - 1).collect() }, e.1);
+            let r = chk.is_dominated_or_insert(Arc::new(probe.0.clone()), d, probe.1);
+            if !r.dominated { viol.push(v(&["C10", "C18"], "dominance-final-state", format!("closing probe {:?} (strictly worse than recorded {:?}) is not reported dominated", probe, e))); }
+        } } }
+    }
+    agg.distinct_case(hash_json(&(use_value, &ops)));
+    agg.sample(|| json!({"arm": arm, "seed": seed, "use_value": use_value, "ops": ops}));
+    viol.truncate(3);
+    if viol.is_empty() { None } else { Some(ViolationRecord { arm: arm.into(), seed, run, violations: viol, replay: json!({"kind": "dom-history", "use_value": use_value, "ops": ops}) }) }
+}
+
+// =====================================================================================================
+// width-grid: the combinator clause of C13 (a pure function: grid evaluation, NOT a simulation result)
+// =====================================================================================================
+fn run_width_grid(seed: u64, run: u64, agg: &mut Agg) -> Option<ViolationRecord> {
+    let mut rng = Rng::new(seed);
+    agg.runs += 1;
+    let nvars = rng.below(12); let plen = rng.below(nvars + 1); let k = 1 + rng.below(9); let base = rng.below(7);
+    let sub = SubProblem { state: Arc::new(0u8), value: 0, path: (0..plen).map(|i| Decision { variable: Variable(i), value: 0 }).collect(), ub: 0, depth: plen };
+    let mut viol = vec![];
+    let mut chk = |name: &str, w: usize| { if w == 0 { viol.push(v(&["C13"], "zero-width", format!("{name} yields a width of zero (base {base}, nb vars {nvars}, path length {plen}, factor {k})"))); } };
+    chk("Times(k, FixedWidth)", Times(k, FixedWidth(base)).max_width(&sub));
+    chk("DivBy(k, FixedWidth)", DivBy(k, FixedWidth(base)).max_width(&sub));
+    chk("Times(0, FixedWidth)", Times(0, FixedWidth(base)).max_width(&sub));
+    chk("Times(k, NbUnassignedWidth)", Times(k, NbUnassignedWidth(nvars)).max_width(&sub));
+    chk("DivBy(k, NbUnassignedWidth)", DivBy(k, NbUnassignedWidth(nvars)).max_width(&sub));
+    chk("DivBy(k, Times(k, NbUnassigned))", DivBy(k, Times(k, NbUnassignedWidth(nvars))).max_width(&sub));
+    agg.add("width_combinator_evaluations", 6);
+    agg.distinct_case(hash_json(&(nvars, plen, k, base)));
+    agg.sample(|| json!({"arm": "width-grid", "nb_vars": nvars, "path_len": plen, "factor": k, "base": base}));
+    if viol.is_empty() { None } else { Some(ViolationRecord { arm: "width-grid".into(), seed, run, violations: viol, replay: json!({"kind": "seed", "arm": "width-grid", "seed": seed}) }) }
+}
+
+// =====================================================================================================
+pub fn run_history_arm(arm: &str, seed: u64, run: u64, agg: &mut Agg) -> Option<Option<ViolationRecord>> {
+    Some(match arm {
+        "dd-history" | "dd-history-depthfree" | "dd-history-longarc" => run_dd_history(arm, seed, run, agg, None),
+        "fringe-history" => run_fringe_history(arm, seed, run, agg, None),
+        "store-history" => run_store_history(arm, seed, run, agg, None),
+        "dom-history" => run_dom_history(arm, seed, run, agg, None),
+        "width-grid" => run_width_grid(seed, run, agg),
+        _ => return None,
+    })
+}
+pub fn replay_history(p: &serde_json::Value, agg: &mut Agg) -> Option<ViolationRecord> {
+    match p.get("kind").and_then(|k| k.as_str()).unwrap_or("") {
+        "dd-history" => { let t: Table = serde_json::from_value(p["table"].clone()).ok()?; let dd: Dd = serde_json::from_value(p["dd"].clone()).ok()?; let ops: Vec<CompileOp> = serde_json::from_value(p["ops"].clone()).ok()?;
+            run_dd_history(p["arm"].as_str().unwrap_or("dd-history"), 0, 0, agg, Some((&t, dd, &ops))) }
+        "fringe-history" => { let ops: Vec<FringeOp> = serde_json::from_value(p["ops"].clone()).ok()?; run_fringe_history("fringe-history", 0, 0, agg, Some((p["dedup"].as_bool()?, &ops))) }
+        "store-history" => { let ops: Vec<CacheOp> = serde_json::from_value(p["ops"].clone()).ok()?; run_store_history("store-history", 0, 0, agg, Some(&ops)) }
+        "dom-history" => { let ops: Vec<DomOp> = serde_json::from_value(p["ops"].clone()).ok()?; run_dom_history("dom-history", 0, 0, agg, Some((p["use_value"].as_bool()?, 0, &ops))) }
+        _ => None,
+    }
+}
